@@ -75,7 +75,7 @@ func parseListing(b []byte) ([]*types.Stat, error) {
 	return out, nil
 }
 
-func judgeC19(c c19Case) (string, string) {
+func judgeC19Raw(c c19Case) (string, string) {
 	root := scratch.Dir("meta")
 	defer scratch.Remove(root)
 	srcDir, dst, outside := filepath.Join(root, "src"), filepath.Join(root, "dst"), filepath.Join(root, "outside")
@@ -496,4 +496,14 @@ func replayC19(raw json.RawMessage) string {
 		return ""
 	}
 	return k + ": " + m
+}
+
+// judgeC19 is judgeC19Raw with a panic of the code under test turned into a verdict (never a crash of the check).
+func judgeC19(c c19Case) (k, m string) {
+	defer func() {
+		if r := recover(); r != nil {
+			k, m = "panic", fmt.Sprintf("the code under test panicked: %v", r)
+		}
+	}()
+	return judgeC19Raw(c)
 }
